@@ -6,7 +6,9 @@ import (
 	"encoding/binary"
 	"encoding/hex"
 	"encoding/json"
+	"errors"
 	"fmt"
+	"github.com/ipld/go-ipld-prime/codec/dagcbor"
 	"math"
 	"os"
 	"os/exec"
@@ -93,6 +95,65 @@ func c09Entries() []byteEntry {
 				c.Covers(c)
 			}
 		}},
+		{"token.Inspect+FindTag", func(b []byte) {
+			// an application that routes on the envelope facts before it picks a decoder
+			for _, dec := range []func([]byte) (datamodel.Node, error){
+				func(b []byte) (datamodel.Node, error) { return ipld.Decode(b, dagcbor.Decode) },
+				func(b []byte) (datamodel.Node, error) { return ipld.Decode(b, dagjson.Decode) },
+			} {
+				n, err := dec(b)
+				if err != nil {
+					continue
+				}
+				token.FindTag(n)
+				if info, err := token.Inspect(n); err == nil {
+					_ = info.Tag
+					delegation.FromIPLD(n)
+					invocation.FromIPLD(n)
+				}
+			}
+		}},
+		{"errors.are-printable", func(b []byte) {
+			// error values handed back for untrusted input can be printed and inspected
+			if _, err := selector.Parse(string(b)); err != nil {
+				_ = err.Error()
+				var pe interface {
+					Name() string
+					Message() string
+					Column() int
+					Source() string
+					Token() string
+				}
+				if errors.As(err, &pe) {
+					pe.Name()
+					pe.Message()
+					pe.Column()
+					pe.Source()
+					pe.Token()
+				}
+			}
+			if s, err := selector.Parse(".a[5]" + string(b)); err == nil {
+				if _, err := s.Select(nMap(kv{"a", nList()})); err != nil {
+					_ = err.Error()
+					var re interface {
+						Name() string
+						Message() string
+						At() []string
+					}
+					if errors.As(err, &re) {
+						re.Name()
+						re.Message()
+						re.At()
+					}
+				}
+			}
+			if _, err := policy.FromDagJson(string(b)); err != nil {
+				_ = err.Error()
+			}
+			if _, _, err := token.FromSealed(b); err != nil {
+				_ = err.Error()
+			}
+		}},
 	}
 }
 
@@ -149,10 +210,12 @@ func c09RunInput(ctx *engine.Ctx, entries []byteEntry, only string, b []byte) {
 func c09ShortSub() *engine.Sub {
 	entries := c09Entries()
 	return &engine.Sub{
-		Name: "all-short-byte-strings",
+		Name:   "all-short-byte-strings",
 		Repeat: true,
-		Rule: "every byte string up to the length bound handed to every entry point that accepts untrusted bytes or text (16 entry points: token / delegation / invocation decoders for sealed bytes, DAG-JSON and readers, the four container readers, policy.FromDagJson + Match, selector.Parse + Select on 33 values, did.Parse + PubKey, command.Parse): no panic; non-trivial = all",
-		Bound: func(t string) string { return fmt.Sprintf("all byte strings of length <=%d x 16 entry points", tierN(t, 2, 3)) },
+		Rule:   "every byte string up to the length bound handed to every entry point that accepts untrusted bytes or text (16 entry points: token / delegation / invocation decoders for sealed bytes, DAG-JSON and readers, the four container readers, policy.FromDagJson + Match, selector.Parse + Select on 33 values, did.Parse + PubKey, command.Parse): no panic; non-trivial = all",
+		Bound: func(t string) string {
+			return fmt.Sprintf("all byte strings of length <=%d x 16 entry points", tierN(t, 2, 3))
+		},
 		Gen: func(tier string, emit func(any) bool) {
 			n := tierN(tier, 2, 3)
 			emit(&c09BytesCase{Hex: ""})
@@ -258,9 +321,9 @@ func c09MutSub() *engine.Sub {
 		return nil
 	}
 	return &engine.Sub{
-		Name: "distance-1-mutants",
+		Name:   "distance-1-mutants",
 		Repeat: true,
-		Rule: "every single-byte substitution (255 values), deletion, insertion (256 values) and truncation at every offset of 14 valid artefacts (sealed and DAG-JSON tokens, the four container formats, a nested policy in DAG-JSON, two selectors, three did:key strings, a command), handed to the entry points that accept that artefact: no panic; non-trivial = all",
+		Rule:   "every single-byte substitution (255 values), deletion, insertion (256 values) and truncation at every offset of 14 valid artefacts (sealed and DAG-JSON tokens, the four container formats, a nested policy in DAG-JSON, two selectors, three did:key strings, a command), handed to the entry points that accept that artefact: no panic; non-trivial = all",
 		Bound: func(t string) string {
 			if t == "thorough" {
 				return "14 artefacts x every offset x (255 substitutions + 256 insertions + deletion + truncation)"
@@ -346,9 +409,9 @@ func c09MutSub() *engine.Sub {
 
 func c09SignedSub() *engine.Sub {
 	return &engine.Sub{
-		Name: "well-signed-malformed-payloads",
+		Name:   "well-signed-malformed-payloads",
 		Repeat: true,
-		Rule: "the payload-mutation alphabet of C10 (every field x drop / null / retype to each kind / int53, int64 and uint64 extremes in time fields, argument values, policy literals and metadata / invalid commands and DIDs incl. every malformed key-material class / nonce lengths / malformed policies), each signed correctly and offered to six decoders; plus every alternative key-material encoding of C16 as the issuer of a signed envelope: no decoder panics; non-trivial = all",
+		Rule:   "the payload-mutation alphabet of C10 (every field x drop / null / retype to each kind / int53, int64 and uint64 extremes in time fields, argument values, policy literals and metadata / invalid commands and DIDs incl. every malformed key-material class / nonce lengths / malformed policies), each signed correctly and offered to six decoders; plus every alternative key-material encoding of C16 as the issuer of a signed envelope: no decoder panics; non-trivial = all",
 		Bound: func(t string) string {
 			return "2 kinds x 2 issuer algorithms x every field x 20-40 mutations (pairs over a representative subset in thorough) + 183 issuer key-material encodings"
 		},
@@ -394,12 +457,17 @@ func c09SignedSub() *engine.Sub {
 			ctx.States(1)
 			ctx.Nontrivial(1)
 			decs := map[string]func(){
-				"token.FromSealed":              func() { token.FromSealed(sealed) },
-				"token.FromDagCbor":             func() { token.FromDagCbor(sealed) },
-				"delegation.FromSealed":         func() { delegation.FromSealed(sealed) },
-				"invocation.FromSealed":         func() { invocation.FromSealed(sealed) },
-				"delegation.FromDagCborReader":  func() { delegation.FromDagCborReader(bytes.NewReader(sealed)) },
-				"container.FromCbor(1 token)":   func() { w := container.NewWriter(); w.AddSealed(refCID(sealed), sealed); b, _ := w.ToCbor(); container.FromCbor(b) },
+				"token.FromSealed":             func() { token.FromSealed(sealed) },
+				"token.FromDagCbor":            func() { token.FromDagCbor(sealed) },
+				"delegation.FromSealed":        func() { delegation.FromSealed(sealed) },
+				"invocation.FromSealed":        func() { invocation.FromSealed(sealed) },
+				"delegation.FromDagCborReader": func() { delegation.FromDagCborReader(bytes.NewReader(sealed)) },
+				"container.FromCbor(1 token)": func() {
+					w := container.NewWriter()
+					w.AddSealed(refCID(sealed), sealed)
+					b, _ := w.ToCbor()
+					container.FromCbor(b)
+				},
 			}
 			for name, f := range decs {
 				ctx.Eval(1)
@@ -434,7 +502,9 @@ func c09EnvSub() *engine.Sub {
 		Name:   "envelope-signature-and-header-shapes",
 		Repeat: true,
 		Rule:   "a genuine token of every issuer key type (Ed25519, secp256k1, P-256, P-384, P-521, RSA-2048, RSA-3072) whose signature element is replaced by: its first n bytes for every n (0 = empty), n zero bytes / n 0xff bytes for every n up to its length + 2, a set of degenerate DER fragments, the signature extended by 1..3 bytes; and whose varsig header is replaced by every truncation, an extension, the empty string and every other key type's header - offered to six decoders: no panic; non-trivial = all",
-		Bound:  func(string) string { return "7 key types x (3 x (len(sig)+3) signature shapes + 9 DER fragments + len(header)+8 header shapes) x 6 decoders" },
+		Bound: func(string) string {
+			return "7 key types x (3 x (len(sig)+3) signature shapes + 9 DER fragments + len(header)+8 header shapes) x 6 decoders"
+		},
 		Gen: func(tier string, emit func(any) bool) {
 			for _, alg := range fixtures.Algs() {
 				p := splitEnvelope(baseSealed("dlg", alg, 0))
@@ -502,12 +572,17 @@ func c09EnvSub() *engine.Sub {
 			ctx.States(1)
 			ctx.Nontrivial(1)
 			decs := map[string]func(){
-				"token.FromSealed":             func() { token.FromSealed(sealed) },
-				"token.FromDagCbor":            func() { token.FromDagCbor(sealed) },
-				"delegation.FromSealed":        func() { delegation.FromSealed(sealed) },
-				"invocation.FromSealed":        func() { invocation.FromSealed(sealed) },
-				"invocation.FromSealedReader":  func() { invocation.FromSealedReader(bytes.NewReader(sealed)) },
-				"container.FromCbor(1 token)":  func() { w := container.NewWriter(); w.AddSealed(refCID(sealed), sealed); b, _ := w.ToCbor(); container.FromCbor(b) },
+				"token.FromSealed":            func() { token.FromSealed(sealed) },
+				"token.FromDagCbor":           func() { token.FromDagCbor(sealed) },
+				"delegation.FromSealed":       func() { delegation.FromSealed(sealed) },
+				"invocation.FromSealed":       func() { invocation.FromSealed(sealed) },
+				"invocation.FromSealedReader": func() { invocation.FromSealedReader(bytes.NewReader(sealed)) },
+				"container.FromCbor(1 token)": func() {
+					w := container.NewWriter()
+					w.AddSealed(refCID(sealed), sealed)
+					b, _ := w.ToCbor()
+					container.FromCbor(b)
+				},
 			}
 			for name, f := range decs {
 				ctx.Eval(1)
@@ -551,7 +626,9 @@ func c09MatchSub() *engine.Sub {
 	return &engine.Sub{
 		Name: "policy-match-arbitrary-data",
 		Rule: "every atom and composite statement of C11's universe, plus comparison atoms whose literal is a uint64 beyond int64 / NaN / Inf / MinInt64, matched (Match and PartialMatch) against hostile argument data: uint64 beyond int64, NaN, +/-Inf, int64 extremes, links, bytes, wrong kinds under quantifiers, and the 33 values of C12: no panic; non-trivial = all",
-		Bound: func(t string) string { return fmt.Sprintf("C11 atoms + composites of the tier + 120 hostile-literal atoms x %d data", len(data)) },
+		Bound: func(t string) string {
+			return fmt.Sprintf("C11 atoms + composites of the tier + 120 hostile-literal atoms x %d data", len(data))
+		},
 		Gen: func(tier string, emit func(any) bool) {
 			for _, a := range c11Atoms() {
 				if !emit(&c09MatchCase{S: a}) {
@@ -626,7 +703,9 @@ func c09GlobSub() *engine.Sub {
 		Name:   "untrusted-like-patterns",
 		Repeat: true,
 		Rule:   `every like pattern over {a,b,*,\} up to the length bound, offered as an untrusted policy through policy.FromIPLD and policy.FromDagJson (and to the constructor policy.Like): each returns a policy or an error without panicking; every accepted policy is matched (Match and PartialMatch) against every string over the same alphabet up to the bound and against non-string data: no panic; non-trivial = pattern accepted`,
-		Bound:  func(t string) string { return fmt.Sprintf("patterns and strings of length <=%d over 4 symbols, 3 entry points", tierN(t, 4, 5)) },
+		Bound: func(t string) string {
+			return fmt.Sprintf("patterns and strings of length <=%d over 4 symbols, 3 entry points", tierN(t, 4, 5))
+		},
 		Gen: func(tier string, emit func(any) bool) {
 			n := tierN(tier, 4, 5)
 			allStrings(c13Alphabet, n, func(p string) bool { return emit(&c09GlobCase{Pattern: p, MaxLen: n}) })
